@@ -154,7 +154,7 @@ def gen_spec(rng, depth):
     kinds = rng.choice([["str"], ["str"], ["str", "int"], ["int"], ["str", "none"], ["bool"], ["float", "str"], ["str", "tuple"]])
     for _ in range(rng.randint(0, 3)):
         kk = rng.choice(kinds)
-        payload = rng.choice(["k", "pi", "vf", "n"]) if kk == "str" else (rng.random() < 0.5 if kk == "bool" else rng.randint(0, 5))
+        payload = rng.choice(["k", "pi", "vf", "n", "k", "pi", "vf", "n", ":type:", ":serialized:"]) if kk == "str" else (rng.random() < 0.5 if kk == "bool" else rng.randint(0, 5))
         if (kk, payload) in seen:
             continue
         seen.add((kk, payload))
@@ -232,7 +232,10 @@ def run_codec(case):
             js = data_to_json(d)
         except TypeError as e:
             return {"crash": f"data_to_json raises TypeError: {e}", "expr": expr}
-        back = json_to_data(js)
+        try:
+            back = json_to_data(js)
+        except Exception as e:
+            return {"crash": f"json_to_data raises {type(e).__name__}: {e}", "expr": expr}
     raw = json.loads(js)
     plain = [not (isinstance(raw[name], dict) and ":serialized:" in raw[name]) for name, _ in case["items"]]
     diffs = []
@@ -244,8 +247,22 @@ def run_codec(case):
     return {"plain": plain, "diffs": diffs, "expr": expr}
 
 
+RESERVED_KEY_SIG = "dict-attribute-with-reserved-serialized-key-not-restored"
+
+
+def has_reserved_key(case):
+    """precise predicate of a known failing class: an attribute whose value is a dict with the first-level string key
+    ':serialized:' - json_to_data takes any such dict for a cloudpickled blob (and data_to_json's informational copy of a
+    pickled dict overwrites the real blob under that key)"""
+    return any(spec[0] == "dict" and any(ks[0] == "str" and ks[1] == ":serialized:" for ks, _ in spec[1]) for _, spec in case["items"])
+
+
 def compare_codec(case, impl, mv):
     probs = []
+    if has_reserved_key(case):
+        if "crash" in impl or impl["diffs"]:
+            return [(RESERVED_KEY_SIG, "a dict attribute with the key ':serialized:' is not restored: " + (impl.get("crash") or "; ".join(impl["diffs"][:2])))]
+        return []
     if "crash" in impl:
         # (repaired in /repo by 90ec19a: a dict attribute with a tuple key made data_to_json raise; corpus-tuple-key-save-raises keeps the input)
         return [("oracle-json-codec-raises", impl["crash"])]
@@ -547,13 +564,13 @@ def main():
             hist["models"].append(c["config"])
             distinct.add(c["config"] + str(c.get("seed")))
         for sig, msg in probs:
-            is_oracle = sig.startswith("oracle-")
+            is_oracle = sig.startswith("oracle-") or sig == RESERVED_KEY_SIG
             full = sig if is_oracle else "model-correspondence-" + sig
             if full in reported:
                 continue
             reported.add(full)
             chk.violation(full, msg, {"case": c, "problems": probs[:6], "correspondence": "harness/c09.py vs Model.JsonCodec.data_to_json"}, found_input=is_oracle)
-        if len(reported) >= 4:
+        if len(reported - {RESERVED_KEY_SIG}) >= 4:
             break
     chk.coverage["evaluations"] = len(cases)
     chk.coverage["traces_validated_against_impl"] = len(cases)
